@@ -72,6 +72,10 @@ Definition resp_new (code : N) : response := mkResponse true code CtNone [] (mem
 Definition resp_text (code : N) (text : bytes) : response := mkResponse true code (CtText plain_text) [] (mem_body text).
 Definition resp_continue_inst : response := resp_new 100.
 
+(* what HttpServerBuilder::spawn turns a panicking handler into: Response::text(500, "Server error") *)
+Definition panic_code : N := 500.
+Definition panic_text : bytes := [83;101;114;118;101;114;32;101;114;114;111;114].
+
 (* enum variant name, for the lookup in the generated error table *)
 Definition herr_name (e : herr) : bytes :=
   match e with
